@@ -188,9 +188,9 @@ def run(chk):
         sys.path.insert(0, str(core.REPO / 'src'))     # the parent only uses pure helpers of the scenario modules
     chk.audit(PROPS)
     quick = chk.tier == 'quick'
-    _frame_part(chk, 1200 if quick else 10000)
-    _pipe_part(chk, 120 if quick else 1200)
-    _sock_part(chk, 72 if quick else 480, 16 if quick else 100)
+    _frame_part(chk, 800 if quick else 10000)
+    _pipe_part(chk, 80 if quick else 1200)
+    _sock_part(chk, 48 if quick else 480, 12 if quick else 100)
     chk.cov['rule'] = (
         'frame (E3): random cases (records: id class x encoder x payload class [empty, header look-alike, newline-heavy, '
         'random bytes, nested objects, unicode text] x size incl. 64 KiB boundaries; reader limit 24..65536; clean / cut '
